@@ -14,6 +14,11 @@ import (
 	"github.com/apache/thrift/lib/go/thrift"
 )
 
+var vfRacePF = NewFProtocolFactory(thrift.NewTBinaryProtocolFactoryConf(nil))
+
+// response headers as they come off the wire: version 0, one pair "r" = "v"
+var vfRaceRespHeaders = []byte{0, 0, 0, 0, 10, 0, 0, 0, 1, 'r', 0, 0, 0, 1, 'v'}
+
 func TestVerifRaceSharedContext(t *testing.T) {
 	ops := []func(c *FContextImpl, i int){
 		func(c *FContextImpl, i int) { c.AddRequestHeader("a", "v") },
@@ -30,6 +35,17 @@ func TestVerifRaceSharedContext(t *testing.T) {
 		func(c *FContextImpl, i int) { cl := c.Clone(); cl.AddRequestHeader("q", "w"); cl.AddEphemeralProperty("q", 1) },
 		func(c *FContextImpl, i int) { cl := Clone(c); cl.AddResponseHeader("q", "w") },
 		func(c *FContextImpl, i int) { c.CorrelationID() },
+		// the library's own consumers of a context: serialising it into a request / response, and
+		// reading response headers into it
+		func(c *FContextImpl, i int) {
+			vfRacePF.GetProtocol(&thrift.TMemoryBuffer{Buffer: new(bytes.Buffer)}).WriteRequestHeader(c)
+		},
+		func(c *FContextImpl, i int) {
+			vfRacePF.GetProtocol(&thrift.TMemoryBuffer{Buffer: new(bytes.Buffer)}).WriteResponseHeader(c)
+		},
+		func(c *FContextImpl, i int) {
+			vfRacePF.GetProtocol(&thrift.TMemoryBuffer{Buffer: bytes.NewBuffer(append([]byte{}, vfRaceRespHeaders...))}).ReadResponseHeader(c)
+		},
 	}
 	for a := range ops {
 		for b := range ops {
